@@ -59,6 +59,15 @@ pub enum Cmd {
     /// `x=$( body )`
     CmdSub(Vec<Cmd>),
     Pipefail(bool),
+    /// `gen N | cat{cats} | st K`: the last stage exits without reading while the writers still
+    /// have more than the pipes can hold, so every writer must see EPIPE (status 1 in the simulated
+    /// system, which has no SIGPIPE) instead of blocking for ever
+    EarlyExit { extra: u16, cats: u8, st: u8 },
+}
+
+fn early_exit_len(extra: u16, cats: u8) -> usize {
+    // strictly more than all pipes (1024 each) plus the cats' buffers (200 each) can absorb
+    1300 * (cats as usize % 3 + 1) + extra as usize % 1500
 }
 
 #[derive(Clone, Debug, PartialEq, Eq, Hash, Serialize, Deserialize)]
@@ -197,6 +206,9 @@ fn render_cmd(c: &Cmd, r: &mut Ren, nbg: &mut u8) {
             r.out.push_str(" )");
         }
         Cmd::Pipefail(on) => r.out.push_str(if *on { "set -o pipefail" } else { "set +o pipefail" }),
+        Cmd::EarlyExit { extra, cats, st } => {
+            r.out.push_str(&format!("gen {}{} | st {st}", early_exit_len(*extra, *cats), crate::props::c13::cats(*cats % 3)));
+        }
     }
 }
 
@@ -309,6 +321,14 @@ impl M {
                 Cmd::Pipefail(on) => {
                     p.pipefail = *on;
                     p.status = 0;
+                }
+                Cmd::EarlyExit { cats, st, .. } => {
+                    let n = 2 + (*cats % 3) as usize;
+                    for _ in 0..n {
+                        self.children.push(vec![]);
+                    }
+                    self.max_live = self.max_live.max(n);
+                    p.status = if *st != 0 || !p.pipefail { *st as i32 } else { 1 };
                 }
             }
         }
@@ -442,6 +462,7 @@ fn check_sched(c: &SchedCase) -> Outcome {
         .class_if(prog_has(&prog, &|c| matches!(c, Cmd::Pipe(s) if matches!(s.first(), Some(Stage::Gen(_))))), "pipeline-with-data")
         .class_if(prog_has(&prog, &|c| matches!(c, Cmd::Pipefail(true))), "pipefail")
         .class_if(prog_has(&prog, &|c| matches!(c, Cmd::CmdSub(_))), "command-substitution")
+        .class_if(prog_has(&prog, &|c| matches!(c, Cmd::EarlyExit { .. })), "last-stage-exits-before-writers")
 }
 
 fn prog_has(p: &[Cmd], f: &dyn Fn(&Cmd) -> bool) -> bool {
@@ -467,6 +488,7 @@ fn arb_cmd() -> impl Strategy<Value = Cmd> {
         2 => (0u8..3).prop_map(Cmd::WaitPid),
         1 => Just(Cmd::WaitUnknown),
         1 => any::<bool>().prop_map(Cmd::Pipefail),
+        2 => (0u16..1500, 0u8..3, 0u8..4).prop_map(|(extra, cats, st)| Cmd::EarlyExit { extra, cats, st }),
     ];
     leaf.prop_recursive(3, 16, 3, |inner| {
         let list = prop::collection::vec(inner.clone(), 1..3);
